@@ -54,6 +54,9 @@ P['C10'] = dict(cat='other', tech='nothing-after path rule on the event-level CF
 P['C05'] = dict(cat='other', tech='must-pass-through path rule with effect sets (updater reachability), finite-model walk of updateHeader against the sync table (A7), structural regeneration rules, type-level who-may-mutate rule',
    text='Partial claim: every public mutator reaches an updater after its last modification on every normal path; updateHeader copies each source parameter into its header field whenever they differ (6-row sync table on finite models); updateParameters regenerates counts and label-like lists one entry per element; nobody else can mutate; derived header getters/setters are a rescaling triple. Does not decide values for every interleaving.',
    note='Documented const-bypass accessors are outside the property. ' + TB, ref='4/C05')
+P['C09'] = dict(cat='other', tech='effect sets (A3) against allowed sets, replace-or-append search idiom, step-order path rule, validate-before-assign dominance, accumulator width rule (custom libTooling checker)',
+   text='Partial claim: edit functions only append or assign the matched element (nothing erased/inserted/sorted), the replaced element is the exact-name match, c3d::parameter performs its steps in order, typed setters assign only after the consistency test with their own type constant and vector, the consistency products are accumulated in 64-bit unsigned arithmetic, lock toggles write one flag. The arithmetic of isDimensionConsistent as a predicate is not decided.',
+   note='' + TB, ref='4/C09')
 NA = {
  'C19': 'compares compiled artefacts across optimisation levels / link kinds; not decidable from source without running the builds (DESIGN 4/C19)',
 }
